@@ -30,8 +30,13 @@ func (p *retryablePostProcessor) PostProcess(_ context.Context, results []ocr2ke
 	retryable := 0
 	for i, res := range results {
 		if res.PipelineExecutionState != 0 && res.Retryable {
+			payload, ok := payloadOf(res, i, payloads)
+			if !ok {
+				err = errors.Join(err, fmt.Errorf("no payload found for retryable result with work ID '%s'", res.WorkID))
+				continue
+			}
 			e := p.q.Enqueue(types.RetryRecord{
-				Payload:  payloads[i],
+				Payload:  payload,
 				Interval: res.RetryInterval,
 			})
 			if e == nil {
@@ -42,4 +47,34 @@ func (p *retryablePostProcessor) PostProcess(_ context.Context, results []ocr2ke
 	}
 	p.logger.Printf("post-processing %d results, %d retryable\n", len(results), retryable)
 	return err
+}
+
+// payloadOf returns the payload that produced the given result. Results are not
+// ordered like the payloads they come from (the runner returns cached results
+// first, then batches in the order they complete, and nothing for a failed
+// batch), so the payload is matched on work ID and check block. Only a result
+// that carries no work ID is paired with the payload at the same position.
+func payloadOf(res ocr2keepers.CheckResult, pos int, payloads []ocr2keepers.UpkeepPayload) (ocr2keepers.UpkeepPayload, bool) {
+	if res.WorkID == "" {
+		if pos < len(payloads) {
+			return payloads[pos], true
+		}
+		return ocr2keepers.UpkeepPayload{}, false
+	}
+	found := -1
+	for i, payload := range payloads {
+		if payload.WorkID != res.WorkID {
+			continue
+		}
+		if payload.Trigger.BlockNumber == res.Trigger.BlockNumber && payload.Trigger.BlockHash == res.Trigger.BlockHash {
+			return payload, true
+		}
+		if found < 0 {
+			found = i
+		}
+	}
+	if found < 0 {
+		return ocr2keepers.UpkeepPayload{}, false
+	}
+	return payloads[found], true
 }
